@@ -791,8 +791,12 @@ theorem nf_mInsert (c : Var) (k x : Nat) : stepRes st (.mInsert c k x) ≠ .faul
 theorem nf_mInsertHint (c : Var) (pos k x : Nat) : stepRes st (.mInsertHint c pos k x) ≠ .fault := by
   apply stepRes_ne_fault; intro ms hc
   simp only [compile] at hc; obtain ⟨hg, rfl⟩ := guard_some hc
-  simp only [Bool.and_eq_true, decide_eq_true_eq] at hg
-  have hv : c.valid = true := valid_of hg.1.1 (by rw [hg.1.2]; simp)
+  simp only [Bool.and_eq_true, Bool.or_eq_true, decide_eq_true_eq] at hg
+  have hmu : c.k = .M ∨ c.k = .U := by
+    rcases hg.1.2 with e | e
+    · exact Or.inl e
+    · exact Or.inr e.1
+  have hv : c.valid = true := valid_of hg.1.1 (mu_ne_A hmu)
   exact execAll_one_def (put_def h c none (some (.ext k)) (some (.ext x)) hv (ha.1 _ hv) (by simp)
     (ok_some (srcOK_ext st k)) some_ne_none' (ok_some (srcOK_ext st x)) some_ne_none' (fun _ => ok_some trivial))
 
